@@ -613,6 +613,10 @@ def corrupt_paths(rng, base, rel):
                     res.append(pre + sep + k.name[:-1])       # prefix of a name (may exist: filtered by the oracle)
         for big in (L, L + 1, 2**31, 2**32, 2**32 + i, 2**32 + L - 1 if L else 2**32, 2**63, 2**64 + i, 10**25):
             res.append(pre + sep + b"[%d]" % big)
+        # negative indices, among them those that an unsigned conversion maps back onto an existing element
+        for neg in (-1, -(2**32 - i), -(2**64 - i), -(2**64 - (L - 1 if L else 0)), -(2**63), -(i + 1)):
+            if neg < 0:
+                res.append(pre + sep + b"[%d]" % neg)
         comp = k.name if (k.name is not None) else b"[%d]" % i
         pre = pre + sep + comp
         cur = k
